@@ -275,6 +275,28 @@ def run(ctx):
     ctx.sample(dict(op="rlp::bytes", data="00", encoded=impl and "00"))
     ctx.sample(dict(op="rlp::len", n=1024, offset=0x80, encoded="b90400"))
 
+    # a very large access list (400 000 entries, 20 MB of JSON, 14 MB of RLP): encoding is linear — a minute is far more than
+    # needed (about 3 s here), so a time-out means super-linear work; the length prefix of the output is checked as well
+    import os as _os
+    import tempfile as _tempfile
+    from common import CACHE as _CACHE
+    n_big = 400000 if ctx.tier != "thorough" else 1000000
+    addr = "0x" + "ab" * 20
+    big = '{"chainId":1,"nonce":0,"maxPriorityFeePerGas":1,"maxFeePerGas":2,"gas":21000,"to":"%s","value":0,"data":"0x","accessList":[%s]}' % (
+        addr, ",".join('["0x%040x",[]]' % i for i in range(n_big)))
+    tmpd = _tempfile.mkdtemp(prefix="c07-", dir=_CACHE)
+    pth = _os.path.join(tmpd, "big.json")
+    open(pth, "w").write(big)
+    phrase_ = "test test test test test test test test test test test junk"
+    rr = ctx.cli([dict(args=["sign", "--mnemonic", phrase_, "transaction", "--signature-only", pth], timeout=90),
+                  dict(args=["hash", "transaction", pth], timeout=90)], timeout=90)
+    for r in rr:
+        ctx.count("very-large-access-list")
+        if r.cls != "ok":
+            ctx.violation("large-input-takes-too-long-or-fails", dict(op="hdwallet sign/hash transaction", access_list_entries=n_big), "a result within 90 s", str(r)[:200])
+    _os.remove(pth)
+    _os.rmdir(tmpd)
+
 
 def check_decodes(ctx, case, enc, d):
     try:
